@@ -13,7 +13,7 @@
                                                        ddayset (y, m, d) → ok <start> <end> [i:v,…  the non-None entries] | err Kind
     rrgen.timeset <args17> <kind 0..2> <h> <m> <s>     htimeset / mtimeset / stimeset → ok [h,m,s,…] | err Kind
     rrgen.init <args17>                               the translated sections of rrule.__init__ (Gen.init_*) in source order:
-                                                       ok bysetpos bymonth byyearday byeaster bymonthday(pos/neg) byweekno byhour byminute bysecond timeset | err Kind
+                                                       ok bysetpos bymonth byyearday byeaster bymonthday(pos/neg) byweekno byweekday/bynweekday byhour byminute bysecond timeset | err Kind
                                                        (interval check first; bymonth / bymonthday through the defaults section)
   `<args17>` is the argument set of Ops/RRule.lean; the rule is the model's `construct` of it (compared with the
   implementation's normalised state by `rrule.construct` in the same correspondence).
@@ -79,7 +79,7 @@ def runInit (a : Args) : String :=
   sec (Gen.init_bysetpos a.bysetpos) fun s1 =>
   match Gen.init_defaults a.freq a.dtstart a.bymonth a.bymonthday a.byyearday a.byeaster a.byweekno a.byweekday with
   | .error e => "err " ++ e.name
-  | .ok (bm, bmd, _) =>
+  | .ok (bm, bmd, bwd) =>
   sec (Gen.init_bymonth bm) fun s2 =>
   sec (Gen.init_byyearday a.byyearday) fun s3 =>
   sec (Gen.init_byeaster a.byeaster) fun s4 =>
@@ -87,6 +87,9 @@ def runInit (a : Args) : String :=
   | .error e => "err " ++ e.name
   | .ok (p, n) =>
   sec (Gen.init_byweekno a.byweekno) fun s6 =>
+  match Gen.init_byweekday a.freq bwd with
+  | .error e => "err " ++ e.name
+  | .ok (wd, nwd) =>
   sec (Gen.init_byhour a.freq a.dtstart a.interval a.byhour) fun s7 =>
   sec (Gen.init_byminute a.freq a.dtstart a.interval a.byminute) fun s8 =>
   sec (Gen.init_bysecond a.freq a.dtstart a.interval a.bysecond) fun s9 =>
@@ -94,7 +97,9 @@ def runInit (a : Args) : String :=
   | .error e => "err " ++ e.name
   | .ok ts =>
   "ok " ++ " ".intercalate [Ops.RRule.showOL s1, Ops.RRule.showOL s2, Ops.RRule.showOL s3, Ops.RRule.showOL s4,
-    showIntList p ++ "/" ++ showIntList n, Ops.RRule.showOL s6, Ops.RRule.showOL s7, Ops.RRule.showOL s8, Ops.RRule.showOL s9,
+    showIntList p ++ "/" ++ showIntList n, Ops.RRule.showOL s6,
+    Ops.RRule.showOL wd ++ "/" ++ (match nwd with | none => "-" | some l => showIntList (l.flatMap fun q => [q.1, q.2])),
+    Ops.RRule.showOL s7, Ops.RRule.showOL s8, Ops.RRule.showOL s9,
     (match ts with | none => "-" | some l => showIntList (l.flatMap fun t => [t.1, t.2.1, t.2.2]))]
 
 def handle (op : String) (args : List String) : Option String :=
